@@ -37,7 +37,8 @@ func init() {
 type side struct {
 	name string
 	eng  *live.Engine
-	mu   sync.Mutex
+	mu   sync.Mutex // guards eng and sent (held across SendToTarget to keep the submission order)
+	gmu  sync.Mutex // guards got
 	got  []string
 	sent []string
 	opts live.Options
